@@ -7,16 +7,32 @@ VERIF="$(cd "$(dirname "$0")/.." && pwd)"
 GR="$(GOTOOLCHAIN=local go1.26.8 env GOROOT)"
 OUT="$VERIF/.bin/overlay"
 mkdir -p "$OUT"
-python3 - "$GR/src/runtime/select.go" "$OUT/runtime_select.go" <<'PY'
-import sys
+python3 - "$GR/src/runtime/select.go" "$OUT/runtime_select.go" "$GR/src/runtime/chan.go" "$OUT/runtime_chan.go" <<'PY'
+import sys,re
 src=open(sys.argv[1]).read()
 needle="\t\tj := cheaprandn(uint32(norder + 1))\n"
 assert src.count(needle)==1, "runtime/select.go changed: shuffle line not found"
 patched=src.replace(needle, needle+"\t\tswitch selectOrderMode {\n\t\tcase 1:\n\t\t\tj = uint32(norder) // source order\n\t\tcase 2:\n\t\t\tj = 0 // last case first\n\t\t}\n")
+# A channel that outlives one bubble (process-wide pools in the code under test) is adopted by the bubble that uses it
+# next instead of killing the process; executions of one worker run strictly one after the other.
+needle2="\t\t\tif getg().bubble != cas.c.bubble {\n\t\t\t\tfatal(\"select on synctest channel from outside bubble\")\n\t\t\t}\n"
+assert patched.count(needle2)==1, "runtime/select.go changed: bubble check not found"
+patched=patched.replace(needle2,"\t\t\tif getg().bubble != cas.c.bubble {\n\t\t\t\tif selectOrderMode == 0 {\n\t\t\t\t\tfatal(\"select on synctest channel from outside bubble\")\n\t\t\t\t}\n\t\t\t\tcas.c.bubble = getg().bubble\n\t\t\t}\n")
 patched+="\n// selectOrderMode is set by the verification harness (0 = random, stock behaviour).\n//\n//go:linkname selectOrderMode\nvar selectOrderMode uint32\n"
 open(sys.argv[2],"w").write(patched)
+ch=open(sys.argv[3]).read()
+n=0
+for verb in ("send on","close of","receive on"):
+    a="\tif c.bubble != nil && getg().bubble != c.bubble {\n\t\tfatal(\"%s synctest channel from outside bubble\")\n\t}\n" % verb
+    b="\tif c.bubble != nil && getg().bubble != c.bubble {\n\t\tif selectOrderMode == 0 {\n\t\t\tfatal(\"%s synctest channel from outside bubble\")\n\t\t}\n\t\tc.bubble = getg().bubble\n\t}\n" % verb
+    n+=ch.count(a); ch=ch.replace(a,b)
+    a="\tif c.bubble != nil && getg().bubble != c.bubble {\n\t\tunlockf()\n\t\tfatal(\"%s synctest channel from outside bubble\")\n\t}\n" % verb
+    b="\tif c.bubble != nil && getg().bubble != c.bubble {\n\t\tif selectOrderMode == 0 {\n\t\t\tunlockf()\n\t\t\tfatal(\"%s synctest channel from outside bubble\")\n\t\t}\n\t\tc.bubble = getg().bubble\n\t}\n" % verb
+    n+=ch.count(a); ch=ch.replace(a,b)
+assert n==5, "runtime/chan.go changed: %d bubble checks found" % n
+open(sys.argv[4],"w").write(ch)
 PY
 cat > "$OUT/overlay.json" <<JSON
-{"Replace": {"$GR/src/runtime/select.go": "$OUT/runtime_select.go"}}
+{"Replace": {"$GR/src/runtime/select.go": "$OUT/runtime_select.go", "$GR/src/runtime/chan.go": "$OUT/runtime_chan.go"}}
 JSON
 echo "$OUT/overlay.json"
